@@ -74,6 +74,18 @@ CHECKS = {
         note="Quick tier compares the first 30 and last 12 tail intervals per zone and walks every 40th zone's tail to 9999; thorough compares all. CLDR windows mapping and zone locations fields are skipped by length only.",
         technique="independent TLA+ decoder of the database bytes run by TLC + rule evaluation in TLA+, compared with API walks by trace validation",
     ),
+    "C09": dict(
+        category="model_checking",
+        text=("DateArith.tla defines month ordinals in chronological order (Hebrew: molad month count, both numberings), plus_months as "
+              "ordinal + k with the day kept or clamped, plus_years with the documented Hebrew Adar/30th rules; TLC checks that ordinals "
+              "are a chronological bijection and the arithmetic laws on windows of real calendars; real plus_days/weeks/months/years in "
+              "all calendars and Period.between on four operand types with random unit subsets are recorded and TLC checks landing month, "
+              "day adjustment, range raising, and the between laws (between start and end, exact with the finest unit, one sign, maximal "
+              "for single units, only requested units) plus normalize/to_duration totals in BigInt."),
+        design_ref="DESIGN.md section 5 C09",
+        note="Between laws are checked through the implementation's own start + period (whose arithmetic is validated by the plus_* events); Badi intercalary-day month arithmetic is a reference clause.",
+        technique="TLA+ month-ordinal arithmetic model checked by TLC + TLC trace validation of plus_*/between events",
+    ),
     "C10": dict(
         category="model_checking",
         text=("LocalTimeArith.tla states time-of-day addition as modular arithmetic and transcribes the two-branch carry/borrow algorithm "
